@@ -110,6 +110,17 @@ Theorem C08_ws_charge_radius_fused :
    from_pqr_line (ws_line false wit_radius) = PValueError).
 Proof. exact ws_charge_radius_fused. Qed.
 
+(* CIF input: the "#" line print_pqr appends makes pdb2pqr's own reader raise on
+   an otherwise faithful file *)
+Theorem C08_ws_cif_trailer_refuted :
+  ws_ok false base_atom = true /\
+  file_chunks true true (print_atoms false [base_atom]) =
+    [ws_line false (with_serial 1 base_atom); "#" ++ nl] /\
+  read_pqr (file_chunks true true (print_atoms false [base_atom])) = inr PValueError /\
+  read_pqr (file_chunks true false (print_atoms false [base_atom])) =
+    inl [expected_ws false (with_serial 1 base_atom)].
+Proof. exact ws_cif_trailer_refuted. Qed.
+
 (* ---- printing-side lemmas reused by C09 ---- *)
 
 (* --keep-chain changes column 22 only (no guard) *)
@@ -171,6 +182,7 @@ Print Assumptions C08_ws_chain_res_seq_refuted.
 Print Assumptions C08_ws_ins_code_refuted.
 Print Assumptions C08_ws_digit_chain_refuted.
 Print Assumptions C08_ws_charge_radius_fused.
+Print Assumptions C08_ws_cif_trailer_refuted.
 Print Assumptions C08_chainflag_only_col22.
 Print Assumptions C08_respace_keeps_numeric_tokens.
 Print Assumptions C08_serial_is_position.
